@@ -17,14 +17,24 @@ Proof.
   - lia.
 Qed.
 
+Lemma WFx_new w tnew nx :
+  WFw w -> WF tnew -> next w <= nx -> (forall m, In m (ids (forest_of tnew)) -> next w <= m < nx) ->
+  WFx w (W (trees w ++ [tnew]) nx).
+Proof.
+  intros H Wn Hnx F. split; [now apply WFw_new|]. split; [exact Hnx|]. intros m Hm.
+  assert (E : all_ids (W (trees w ++ [tnew]) nx) = all_ids w ++ ids (forest_of tnew)).
+  { unfold all_ids. cbn [trees]. rewrite flat_map_app. cbn. now rewrite app_nil_r. }
+  rewrite E in Hm. apply in_app_or in Hm. destruct Hm as [Hm|Hm]; [now left|right]. apply F in Hm. lia.
+Qed.
+
 (* link a branch with fresh consecutive identities below a parent and register it *)
-Lemma WFw_link_fresh w ti t p pq ch nb inf kids n' :
+Lemma WFx_link_fresh w ti t p pq ch nb inf kids n' :
   WFw w -> get_tree w ti = Some t ->
   parent_path p (forest_of t) = Some pq -> get_ch pq (forest_of t) = Some ch ->
   collides t p (i_did inf) = false ->
   ids kids = seq (S (next w)) (n' - S (next w)) -> S (next w) <= n' -> SU kids ->
   let x := T (next w) inf kids in
-  WFw (put_tree (W (trees w) n') ti
+  WFx w (put_tree (W (trees w) n') ti
          (set_all t (upd_ch pq (place nb x) (forest_of t)) (reg t ++ map rid (pre x))
                   (fold_left (fun a s => idx_add (rdid s) (rid s) a) (pre x) (idx t)))).
 Proof.
@@ -34,7 +44,7 @@ Proof.
   { rewrite ids_t_unfold. cbn [rid rch x]. rewrite Ek. replace (n' - next w) with (S (n' - S (next w))) by lia. reflexivity. }
   assert (Fx : forall m, In m (ids_t x) -> next w <= m < n').
   { intros m Hm. rewrite Ex in Hm. apply in_seq in Hm. lia. }
-  apply (WFw_put w ti t); try assumption; [|lia|].
+  apply (WFx_put w ti t); try assumption; [|lia|].
   - apply (WF_insert t pq ch nb x Wt Gc).
     + rewrite Ex. apply seq_NoDup.
     + intros m Hm. apply Fx in Hm. split; [destruct H; lia|]. intros X. apply (WFw_tree_lt w ti t _ H Gt) in X. lia.
@@ -46,59 +56,88 @@ Proof.
     rewrite map_app, rows_ids, rows_t_ids in Hm. apply in_app_or in Hm. destruct Hm as [Hm|Hm]; [right; now apply Fx|now left].
 Qed.
 
-Theorem WFw_op_add_node w ti p sti src explicit k b deep :
-  WFw w -> WFw (snd (op_add_node w ti p sti src explicit k b deep)).
+Lemma WFw_link_fresh w ti t p pq ch nb inf kids n' :
+  WFw w -> get_tree w ti = Some t ->
+  parent_path p (forest_of t) = Some pq -> get_ch pq (forest_of t) = Some ch ->
+  collides t p (i_did inf) = false ->
+  ids kids = seq (S (next w)) (n' - S (next w)) -> S (next w) <= n' -> SU kids ->
+  let x := T (next w) inf kids in
+  WFw (put_tree (W (trees w) n') ti
+         (set_all t (upd_ch pq (place nb x) (forest_of t)) (reg t ++ map rid (pre x))
+                  (fold_left (fun a s => idx_add (rdid s) (rid s) a) (pre x) (idx t)))).
+Proof. intros H0 H1 H2 H3 H4 H5 H6 H7. exact (proj1 (WFx_link_fresh w ti t p pq ch nb inf kids n' H0 H1 H2 H3 H4 H5 H6 H7)). Qed.
+
+
+Theorem WFx_op_add_node w ti p sti src explicit k b deep :
+  WFw w -> WFx w (snd (op_add_node w ti p sti src explicit k b deep)).
 Proof.
   intros H. unfold op_add_node.
-  destruct (get_tree w ti) as [t|] eqn:Gt; [|exact H].
-  destruct (get_tree w sti) as [st|] eqn:Gs; [|exact H].
-  destruct (get_node src (forest_of st)) as [s|] eqn:Gn; [|exact H].
-  destruct (parent_path p (forest_of t)) as [pq|] eqn:Gp; [|exact H].
-  destruct (get_ch pq (forest_of t)) as [ch|] eqn:Gc; [|exact H].
-  repeat match goal with |- context [if ?c then (Err _, w) else _] => destruct c; [exact H|] end.
-  match goal with |- context [if collides t p ?i then _ else _] => destruct (collides t p i) eqn:Col end; [now apply WFw_bump|].
+  destruct (get_tree w ti) as [t|] eqn:Gt; [|exact (WFx_refl w H)].
+  destruct (get_tree w sti) as [st|] eqn:Gs; [|exact (WFx_refl w H)].
+  destruct (get_node src (forest_of st)) as [s|] eqn:Gn; [|exact (WFx_refl w H)].
+  destruct (parent_path p (forest_of t)) as [pq|] eqn:Gp; [|exact (WFx_refl w H)].
+  destruct (get_ch pq (forest_of t)) as [ch|] eqn:Gc; [|exact (WFx_refl w H)].
+  repeat match goal with |- context [if ?c then (Err _, w) else _] => destruct c; [exact (WFx_refl w H)|] end.
+  match goal with |- context [if collides t p ?i then _ else _] => destruct (collides t p i) eqn:Col end; [now apply WFx_bump|].
   assert (Ss : SU (rch s)).
   { destruct (get_node_spec src _ s Gn) as (Ps & _). apply (SU_pre_f (forest_of st)); [|assumption]. apply (WFw_tree w sti st H Gs). }
   destruct (match deep with Some x => x | None => false end).
   - destruct (proj2 copy_spec (rch s) (typed t) None (S (next w))) as (C1 & C2 & C3 & C4).
     destruct (copy_f (typed t) None (S (next w)) (rch s)) as [kids n'] eqn:Ec. cbn [fst snd] in *.
     rewrite register_all_eq. cbn [snd].
-    apply (WFw_link_fresh w ti t p pq ch); try assumption.
+    apply (WFx_link_fresh w ti t p pq ch); try assumption.
     + rewrite C2. f_equal. lia.
     + lia.
     + now apply C4.
   - rewrite register_all_eq. cbn [snd].
-    apply (WFw_link_fresh w ti t p pq ch); try assumption.
+    apply (WFx_link_fresh w ti t p pq ch); try assumption.
     + replace (S (next w) - S (next w)) with 0 by lia. reflexivity.
     + lia.
     + constructor; [constructor|intros x []].
 Qed.
 
-Lemma WFw_add_nodes srcs : forall w ti p sti b deep acc, WFw w -> WFw (snd (add_nodes w ti p sti srcs b deep acc)).
+Theorem WFw_op_add_node w ti p sti src explicit k b deep :
+  WFw w -> WFw (snd (op_add_node w ti p sti src explicit k b deep)).
+Proof. intros H0. exact (proj1 (WFx_op_add_node w ti p sti src explicit k b deep H0)). Qed.
+
+
+Lemma WFx_add_nodes srcs : forall w ti p sti b deep acc, WFw w -> WFx w (snd (add_nodes w ti p sti srcs b deep acc)).
 Proof.
-  induction srcs as [|s rest IH]; intros w ti p sti b deep acc H; cbn [add_nodes]; [exact H|].
-  assert (X := WFw_op_add_node w ti p sti s None None b deep H).
-  destruct (op_add_node w ti p sti s None None b deep) as [[r|e] w']; cbn [snd] in X; [now apply IH|exact X].
+  induction srcs as [|s rest IH]; intros w ti p sti b deep acc H; cbn [add_nodes]; [exact (WFx_refl w H)|].
+  assert (X := WFx_op_add_node w ti p sti s None None b deep H).
+  destruct (op_add_node w ti p sti s None None b deep) as [[r|e] w']; cbn [snd] in X; [|exact X].
+  apply (WFx_trans w w'); [exact X|]. apply IH. apply X.
+Qed.
+
+Lemma WFw_add_nodes srcs : forall w ti p sti b deep acc, WFw w -> WFw (snd (add_nodes w ti p sti srcs b deep acc)).
+Proof. intros w ti p sti b deep acc H. exact (proj1 (WFx_add_nodes srcs w ti p sti b deep acc H)). Qed.
+
+Theorem WFx_op_add_tree w ti p sti b deep : WFw w -> WFx w (snd (op_add_tree w ti p sti b deep)).
+Proof.
+  intros H. unfold op_add_tree.
+  destruct (get_tree w ti) as [t|]; [|exact (WFx_refl w H)]. destruct (get_tree w sti) as [st|]; [|exact (WFx_refl w H)].
+  repeat match goal with |- context [if ?c then (Err _, w) else _] => destruct c; [exact (WFx_refl w H)|] end.
+  match goal with |- context [add_nodes w ti p sti ?o ?bb ?d []] => assert (X := WFx_add_nodes o w ti p sti bb d [] H);
+    destruct (add_nodes w ti p sti o bb d []) as [[r|e] w'] end; exact X.
 Qed.
 
 Theorem WFw_op_add_tree w ti p sti b deep : WFw w -> WFw (snd (op_add_tree w ti p sti b deep)).
+Proof. intros H0. exact (proj1 (WFx_op_add_tree w ti p sti b deep H0)). Qed.
+
+
+Theorem WFx_op_copy_to w sti src ti target add_self b deep : WFw w -> WFx w (snd (op_copy_to w sti src ti target add_self b deep)).
 Proof.
-  intros H. unfold op_add_tree.
-  destruct (get_tree w ti) as [t|]; [|exact H]. destruct (get_tree w sti) as [st|]; [|exact H].
-  repeat match goal with |- context [if ?c then (Err _, w) else _] => destruct c; [exact H|] end.
-  match goal with |- context [add_nodes w ti p sti ?o b ?d []] => assert (X := WFw_add_nodes o w ti p sti b d [] H);
-    destruct (add_nodes w ti p sti o b d []) as [[r|e] w'] end; exact X.
+  intros H. unfold op_copy_to. destruct add_self; [now apply WFx_op_add_node|].
+  destruct (get_tree w ti) as [t|]; [|exact (WFx_refl w H)]. destruct (get_tree w sti) as [st|]; [|exact (WFx_refl w H)].
+  destruct (children_of src (forest_of st)) as [[|c ch]|]; [exact (WFx_refl w H)| |exact (WFx_refl w H)].
+  repeat match goal with |- context [if ?c then (Err _, w) else _] => destruct c; [exact (WFx_refl w H)|] end.
+  match goal with |- context [add_nodes w ti target sti ?o BNone ?d []] => assert (X := WFx_add_nodes o w ti target sti BNone d [] H);
+    destruct (add_nodes w ti target sti o BNone d []) as [[r|e] w'] end; exact X.
 Qed.
 
 Theorem WFw_op_copy_to w sti src ti target add_self b deep : WFw w -> WFw (snd (op_copy_to w sti src ti target add_self b deep)).
-Proof.
-  intros H. unfold op_copy_to. destruct add_self; [now apply WFw_op_add_node|].
-  destruct (get_tree w ti) as [t|]; [|exact H]. destruct (get_tree w sti) as [st|]; [|exact H].
-  destruct (children_of src (forest_of st)) as [[|c ch]|]; [exact H| |exact H].
-  repeat match goal with |- context [if ?c then (Err _, w) else _] => destruct c; [exact H|] end.
-  match goal with |- context [add_nodes w ti target sti ?o BNone ?d []] => assert (X := WFw_add_nodes o w ti target sti BNone d [] H);
-    destruct (add_nodes w ti target sti o BNone d []) as [[r|e] w'] end; exact X.
-Qed.
+Proof. intros H0. exact (proj1 (WFx_op_copy_to w sti src ti target add_self b deep H0)). Qed.
+
 
 (* a whole new tree from copied branches *)
 Lemma WF_fresh_tree kids ty c : NoDup (ids kids) -> ~ In 0 (ids kids) -> SU kids ->
@@ -109,26 +148,36 @@ Proof.
   apply register_all_ok. repeat split; constructor.
 Qed.
 
-Lemma WFw_copy_tree w kids n' ty c :
+Lemma WFx_copy_tree w kids n' ty c :
   WFw w -> ids kids = seq (next w) (n' - next w) -> next w <= n' -> SU kids ->
-  WFw (W (trees w ++ [TS kids ([] ++ map rid (pre_f kids)) (fold_left (fun a s => idx_add (rdid s) (rid s) a) (pre_f kids) []) ty c]) n').
+  WFx w (W (trees w ++ [TS kids ([] ++ map rid (pre_f kids)) (fold_left (fun a s => idx_add (rdid s) (rid s) a) (pre_f kids) []) ty c]) n').
 Proof.
-  intros H E Hn S. apply WFw_new; try assumption.
+  intros H E Hn S. apply WFx_new; try assumption.
   - apply WF_fresh_tree; [rewrite E; apply seq_NoDup| |assumption].
     rewrite E. intros X. apply in_seq in X. destruct H. lia.
   - cbn [forest_of]. intros m Hm. rewrite E in Hm. apply in_seq in Hm. lia.
 Qed.
 
-Theorem WFw_op_tree_copy w sti : WFw w -> WFw (snd (op_tree_copy w sti)).
+Lemma WFw_copy_tree w kids n' ty c :
+  WFw w -> ids kids = seq (next w) (n' - next w) -> next w <= n' -> SU kids ->
+  WFw (W (trees w ++ [TS kids ([] ++ map rid (pre_f kids)) (fold_left (fun a s => idx_add (rdid s) (rid s) a) (pre_f kids) []) ty c]) n').
+Proof. intros H0 H1 H2 H3. exact (proj1 (WFx_copy_tree w kids n' ty c H0 H1 H2 H3)). Qed.
+
+
+Theorem WFx_op_tree_copy w sti : WFw w -> WFx w (snd (op_tree_copy w sti)).
 Proof.
-  intros H. unfold op_tree_copy. destruct (get_tree w sti) as [st|] eqn:Gs; [|exact H].
+  intros H. unfold op_tree_copy. destruct (get_tree w sti) as [st|] eqn:Gs; [|exact (WFx_refl w H)].
   destruct (proj2 copy_spec (forest_of st) (typed st) None (next w)) as (C1 & C2 & C3 & C4).
   destruct (copy_f (typed st) None (next w) (forest_of st)) as [kids n'] eqn:Ec. cbn [fst snd] in *.
-  rewrite register_all_eq. cbn [snd]. apply WFw_copy_tree; try assumption.
+  rewrite register_all_eq. cbn [snd]. apply WFx_copy_tree; try assumption.
   - rewrite C2. f_equal. lia.
   - lia.
   - apply C4. apply (WFw_tree w sti st H Gs).
 Qed.
+
+Theorem WFw_op_tree_copy w sti : WFw w -> WFw (snd (op_tree_copy w sti)).
+Proof. intros H0. exact (proj1 (WFx_op_tree_copy w sti H0)). Qed.
+
 
 (* giving the top nodes another kind changes neither identities, data_ids nor children *)
 Definition rekind (k : kind) (t : rt) : rt := match t with T id i ch => T id (set_kind_i k i) ch end.
@@ -147,10 +196,10 @@ Proof.
     apply (SU_child l _ H Ht0).
 Qed.
 
-Theorem WFw_op_node_copy w sti src add_self : WFw w -> WFw (snd (op_node_copy w sti src add_self)).
+Theorem WFx_op_node_copy w sti src add_self : WFw w -> WFx w (snd (op_node_copy w sti src add_self)).
 Proof.
-  intros H. unfold op_node_copy. destruct (get_tree w sti) as [st|] eqn:Gs; [|exact H].
-  destruct (get_node src (forest_of st)) as [s|] eqn:Gn; [|exact H].
+  intros H. unfold op_node_copy. destruct (get_tree w sti) as [st|] eqn:Gs; [|exact (WFx_refl w H)].
+  destruct (get_node src (forest_of st)) as [s|] eqn:Gn; [|exact (WFx_refl w H)].
   assert (Ss : SU (rch s)).
   { destruct (get_node_spec src _ s Gn) as (Ps & _). apply (SU_pre_f (forest_of st)); [|assumption]. apply (WFw_tree w sti st H Gs). }
   assert (Sl : SU (if add_self then [s] else rch s)).
@@ -160,12 +209,16 @@ Proof.
   cbn [fst snd] in *.
   rewrite register_all_eq. cbn [snd].
   destruct (add_self && typed st).
-  - fold (rekind (default_kind st None)). apply WFw_copy_tree; try assumption.
+  - fold (rekind (default_kind st None)). apply WFx_copy_tree; try assumption.
     + rewrite rekind_ids, C2. f_equal. lia.
     + lia.
     + apply rekind_SU. now apply C4.
-  - apply WFw_copy_tree; try assumption.
+  - apply WFx_copy_tree; try assumption.
     + rewrite C2. f_equal. lia.
     + lia.
     + now apply C4.
 Qed.
+
+Theorem WFw_op_node_copy w sti src add_self : WFw w -> WFw (snd (op_node_copy w sti src add_self)).
+Proof. intros H0. exact (proj1 (WFx_op_node_copy w sti src add_self H0)). Qed.
+
